@@ -61,6 +61,11 @@ def build(spec, torch):
         return {k: build(v, torch) for k, v in spec[1]}
     if kind == "scalar":
         return spec[1]
+    if kind == "many":
+        # n small tensors: a data.pkl with hundreds of memo entries and, at protocol 4/5 from about
+        # 1500 on, more than one FRAME
+        g = torch.Generator().manual_seed(spec[1])
+        return {f"t{i}": torch.randn(2, generator=g) for i in range(spec[1])}
     if kind in ("module", "state_dict"):
         torch.manual_seed(spec[2])
         nn = torch.nn
@@ -132,6 +137,8 @@ def features(spec):
                 walk(v)
         elif s[0] in ("module", "state_dict"):
             out["storages"] += 2
+        elif s[0] == "many":
+            out["storages"] += s[1]
 
     walk(spec)
     return out
@@ -165,7 +172,10 @@ def check(spec, tag, overwrite, scratch, naming="plain"):
     src = os.path.join(scratch.path, src_name)
     dst = os.path.join(scratch.path, dst_name)
     os.makedirs(os.path.dirname(dst), exist_ok=True)
-    torch.save(obj, src)
+    if spec[0] == "many":
+        torch.save(obj, src, pickle_protocol=spec[2])
+    else:
+        torch.save(obj, src)
     # (every other case) a payload with a whitespace-only line and trailing blanks: what is
     # executed must be the payload exactly as given
     if len(tag) % 2:
@@ -197,11 +207,12 @@ def check(spec, tag, overwrite, scratch, naming="plain"):
     try:
         with warnings.catch_warnings(), contextlib.redirect_stdout(io.StringIO()):
             warnings.simplefilter("ignore")
+            wrapper = PyTorchModelWrapper(src)
             if len(tag) % 3 == 0:
                 # the documented parameter order, passed positionally
-                PyTorchModelWrapper(src).inject_payload(payload, dst, "insertion", overwrite)
+                wrapper.inject_payload(payload, dst, "insertion", overwrite)
             else:
-                PyTorchModelWrapper(src).inject_payload(payload, dst, injection="insertion", overwrite=overwrite)
+                wrapper.inject_payload(payload, dst, injection="insertion", overwrite=overwrite)
     except Exception as e:  # noqa: BLE001
         return fail(f"inject_payload raised {type(e).__name__}: {e}")
     after = _listing(scratch.path)
@@ -279,6 +290,29 @@ def check(spec, tag, overwrite, scratch, naming="plain"):
         verif_sink.reset()
         if log2 != [((tag2,), {})]:
             return fail(f"second output ran {log2!r}, expected exactly the second payload once")
+    else:
+        # history: the same wrapper object is used again after it has replaced its input (the
+        # usage of the project's own example): its input now is the injected archive, so the new
+        # output carries both calls
+        tag2 = tag + "#2"
+        payload2 = f"import verif_sink\nverif_sink.sink({tag2!r})"
+        dst2 = os.path.join(scratch.path, "out2.pt")
+        try:
+            with warnings.catch_warnings(), contextlib.redirect_stdout(io.StringIO()):
+                warnings.simplefilter("ignore")
+                wrapper.inject_payload(payload2, dst2, injection="insertion")
+        except Exception as e:  # noqa: BLE001
+            return fail(f"a further inject_payload through the same wrapper after overwrite=True raised {type(e).__name__}: {e}")
+        verif_sink.reset()
+        try:
+            torch.load(dst2, weights_only=False)
+        except Exception as e:  # noqa: BLE001
+            return fail(f"the output of a further injection through the same wrapper does not load: {e!r}")
+        log2 = sorted(a[0] for a, _k in verif_sink.LOG)
+        verif_sink.reset()
+        if log2 != sorted([tag, tag2]):
+            return fail(f"after overwrite=True the wrapper's input holds the first payload; a further injection "
+                        f"through the same wrapper gives an archive that runs {log2!r}, expected each of {[tag, tag2]!r} once")
     return None
 
 
@@ -342,6 +376,17 @@ def run_shard(spec_, seed):
     tags = st.one_of(st.sampled_from(TAGS), values.texts(20))
     strat = st.tuples(_specs(), tags, st.booleans(), st.sampled_from(sorted(NAMINGS)))
     with Scratch("c16") as scratch:
+        if spec_["idx"] < 4:
+            # large models at explicit pickle protocols (multi-frame data.pkl, > 255 memo entries)
+            for big in (("many", 1500, 4), ("many", 200, 4), ("many", 1500, 2), ("many", 1500, 5))[spec_["idx"]::4]:
+                for overwrite in (False, True):
+                    f = check(big, "big", overwrite, scratch, "plain")
+                    res.note(repr((big, overwrite)), True, klass=[f"overwrite={overwrite}", "many-tensors", f"protocol{big[2]}"],
+                             sample={"spec": list(big), "overwrite": overwrite})  # fmt: skip
+                    scratch.wipe()
+                    if f is not None:
+                        res.failures.append(f)
+                        return res
 
         def body(case):
             spec, tag, overwrite, naming = case
